@@ -93,6 +93,8 @@ def run(ctx: Ctx) -> None:
             r.check(k == 1, f"ToySimulation.{name}|tick", f.loc(), f"{name} ticks {k} times on its normal path")
 
     acct_rule(ctx, "R07.pen", penalty_only=True)
+    from ..wiring import wiring_rule
+    wiring_rule(ctx, "R07.wire", fields=("miss_penality", "performance_metrics"))
     order_rule(ctx, "R07.order")
     depth_rule(ctx, "R07.depth")
     src_rule(ctx, "R07.src")
